@@ -95,6 +95,25 @@ def named_const(e, suffix):
     return bool(c and c.get('namedp') and name_matches(c['namedp'], suffix))
 
 
+def int_or_const_len(prog, e):
+    """the integer an expression denotes when it is a literal, or `CONST.len()` of a byte-array constant of the
+    workspace (`STUFF_SEQUENCE.len()` for the literal 2), through integer casts; else None"""
+    c = e.strip()
+    if c.kind == 'const' and c.info.get('int') is not None:
+        return c.info['int']
+    if c.kind == 'call' and c.op.rsplit('::', 1)[-1] == 'len' and len(c.args) == 1:
+        for n in c.args[0].walk():
+            if n.kind == 'const':
+                if n.info.get('ref_bytes') is not None:
+                    return len(n.info['ref_bytes']) // 2
+                if n.info.get('namedp'):
+                    try:
+                        return len(prog.const_bytes(n.info['namedp']))
+                    except Exception:
+                        return None
+    return None
+
+
 def describe(e):
     return show(e)
 
